@@ -178,6 +178,8 @@ type State struct {
 	steps       int
 	preempts    int
 	timersOn    bool
+	inSelect    bool // readiness is being evaluated for a case of a multi-case select
+	timerLimit  int64 // with timers on: only time.After channels with a constant duration <= timerLimit fire by themselves (0 = no limit)
 	prov        map[string][]Prov
 	ufArg       map[string]string
 	jsonCache   map[string]Val
